@@ -568,6 +568,12 @@ func ruleSHLEN(w *World, r *Report) {
 						}
 					}
 				}
+				if !ok2 {
+					if at := shlenEarlierPass(w, f, st); at != "" {
+						r.ok("SHLEN", key, w.ipos(st), "every recovery block of the same collection was compared with d.sliceByteCount in an earlier pass ("+at+") that ends in an error on a mismatch")
+						continue
+					}
+				}
 				if ok2 {
 					r.ok("SHLEN", key, w.ipos(st), "recovery data stored as a parity shard only if len(data) == d.sliceByteCount")
 				} else {
@@ -627,7 +633,7 @@ func ruleMKLEN(w *World, r *Report) {
 			}
 		}
 	}
-	r.floor("MKLEN", "make(a-b) sites on reader paths", n, 3)
+	r.floor("MKLEN", "make(a-b) sites on reader paths", n, 1)
 }
 
 func describeVal(v ssa.Value) string {
@@ -844,4 +850,157 @@ func fixedHeaderSize(fn *ssa.Function) int64 {
 		}
 	}
 	return 0
+}
+
+// iterSig names a value by the way it is reached through nested iterations over a collection:
+// <slice>[*].field[v].data - two values with the same signature range over the same elements.
+func iterSig(v ssa.Value, depth int) string {
+	if depth > 10 {
+		return fmt.Sprintf("%p", v)
+	}
+	v = stripAllConv(v)
+	single := func(cell *ssa.Alloc) ssa.Value {
+		var vals []ssa.Value
+		for _, ref := range referrersOf(cell) {
+			if st, ok := ref.(*ssa.Store); ok && st.Addr == ssa.Value(cell) {
+				vals = append(vals, st.Val)
+			}
+		}
+		if len(vals) == 1 {
+			return vals[0]
+		}
+		return nil
+	}
+	switch x := v.(type) {
+	case *ssa.UnOp:
+		if x.Op != token.MUL {
+			break
+		}
+		switch a := x.X.(type) {
+		case *ssa.FieldAddr:
+			if cell, ok := a.X.(*ssa.Alloc); ok {
+				if sv := single(cell); sv != nil {
+					return iterSig(sv, depth+1) + "." + fieldName(a.X.Type(), a.Field)
+				}
+			}
+			if ld, ok := a.X.(*ssa.UnOp); ok && ld.Op == token.MUL {
+				return iterSig(ld, depth+1) + "." + fieldName(a.X.Type(), a.Field)
+			}
+			if ia, ok := a.X.(*ssa.IndexAddr); ok {
+				return iterSig(ia.X, depth+1) + "[*]." + fieldName(a.X.Type(), a.Field)
+			}
+		case *ssa.IndexAddr:
+			return iterSig(a.X, depth+1) + "[*]"
+		case *ssa.Alloc:
+			if sv := single(a); sv != nil {
+				return iterSig(sv, depth+1)
+			}
+		}
+	case *ssa.Field:
+		return iterSig(x.X, depth+1) + "." + fieldName(x.X.Type(), x.Field)
+	case *ssa.Extract:
+		if nx, ok := x.Tuple.(*ssa.Next); ok {
+			if rg, ok := nx.Iter.(*ssa.Range); ok {
+				if x.Index == 1 {
+					return iterSig(rg.X, depth+1) + "[k]"
+				}
+				return iterSig(rg.X, depth+1) + "[v]"
+			}
+		}
+	}
+	return fmt.Sprintf("%p", v)
+}
+
+// shlenEarlierPass: the stored recovery data ranges over a collection every element of which was
+// compared with the slice size in an earlier loop nest: the comparison is made in every iteration,
+// a mismatch returns an error, nothing else leaves those loops early, and they are finished before
+// the store's loop begins. Returns the position of the comparison, or "".
+func shlenEarlierPass(w *World, f *ssa.Function, st *ssa.Store) string {
+	want := iterSig(st.Val, 0)
+	if !strings.Contains(want, "[") {
+		return ""
+	}
+	loops := naturalLoops(f)
+	for _, b := range f.Blocks {
+		iff, ok := b.Instrs[len(b.Instrs)-1].(*ssa.If)
+		if !ok {
+			continue
+		}
+		match := false
+		errEdge := -1
+		for _, cm := range factCmps(Fact{iff.Cond, true, iff}) {
+			if cm.Y == nil || (cm.Op != token.NEQ && cm.Op != token.EQL) {
+				continue
+			}
+			for _, pr := range [][2]ssa.Value{{cm.X, cm.Y}, {cm.Y, cm.X}} {
+				lc := isBuiltinCall(stripAllConv(pr[0]), "len")
+				if lc == nil || iterSig(lc.Call.Args[0], 0) != want {
+					continue
+				}
+				if !strings.HasSuffix(deepPath(w.up(pr[1])).Path, ".sliceByteCount") {
+					continue
+				}
+				match = true
+				if cm.Op == token.NEQ {
+					errEdge = 0
+				} else {
+					errEdge = 1
+				}
+			}
+		}
+		if !match {
+			continue
+		}
+		// a mismatch returns an error
+		eb := b.Succs[errEdge]
+		ret, ok := eb.Instrs[len(eb.Instrs)-1].(*ssa.Return)
+		if !ok || len(ret.Results) == 0 || isNilConst(ret.Results[len(ret.Results)-1]) || !isErrorType(ret.Results[len(ret.Results)-1].Type()) {
+			continue
+		}
+		inner := innermostLoop(loops, b)
+		if inner == nil {
+			continue
+		}
+		// every iteration of the innermost loop makes the comparison
+		every := true
+		for _, p := range inner.head.Preds {
+			if inner.body[p] && !b.Dominates(p) {
+				every = false
+			}
+		}
+		if !every {
+			continue
+		}
+		// the enclosing loops: left only at their headers or by returning an error
+		var outer *natLoop
+		clean := true
+		for _, l := range loops {
+			if !l.body[b] {
+				continue
+			}
+			if outer == nil || len(l.body) > len(outer.body) {
+				outer = l
+			}
+			for lb := range l.body {
+				for _, s := range lb.Succs {
+					if l.body[s] || lb == l.head {
+						continue
+					}
+					r2, ok := s.Instrs[len(s.Instrs)-1].(*ssa.Return)
+					if !ok || len(r2.Results) == 0 || isNilConst(r2.Results[len(r2.Results)-1]) {
+						clean = false
+					}
+				}
+			}
+		}
+		if !clean || outer == nil {
+			continue
+		}
+		// finished before the store's loop begins
+		if outer.body[st.Block()] || !outer.head.Dominates(st.Block()) {
+			continue
+		}
+		return w.ipos(iff)
+	}
+	return ""
 }
